@@ -40,6 +40,17 @@ def pktOf (st : List Byte) : Option Pkt :=
            postDport := dd, proto := pr, flags := BitVec.ofNat 64 (leNat fl) }
   | _, _, _, _, _, _, _, _, _ => none
 
+/-- Little-endian number stored in `n` bytes at `off`. -/
+def fieldN (st : List Byte) (off n : Nat) : Nat := leNat ((st.drop off).take n)
+
+/-- Total version of `pktOf` (equal to it on a full-size state value); the theorems use this one. -/
+def pktOfD (st : List Byte) : Pkt :=
+  let w (off : Nat) : BitVec 32 := BitVec.ofNat 32 (fieldN st off 4)
+  let h (off : Nat) : BitVec 16 := BitVec.ofNat 16 (fieldN st off 2)
+  { src := [w 8, w 12, w 16, w 20], preDst := [w 40, w 44, w 48, w 52], postDst := [w 56, w 60, w 64, w 68],
+    sport := h 96, icmpW := h 98, preDport := h 100, postDport := h 102,
+    proto := BitVec.ofNat 8 (fieldN st 104 1), flags := BitVec.ofNat 64 (fieldN st 368 8) }
+
 def Pkt.addr (p : Pkt) : Leg → List (BitVec 32)
   | .source => p.src
   | .destPreNAT => p.preDst
